@@ -304,6 +304,7 @@ func checkC02(c *ctx) {
 		o.BigVals = c.R.Chance(12)
 		o.LongAP = c.R.Chance(3)
 		o.LongIDs = c.R.Chance(4)
+		o.DupIDs = c.R.Chance(4)
 		b := zh.GenBatch(c.R, o)
 		mode := randMode(c)
 		sb, obs, spec, err := buildObs(c, b, mode)
